@@ -109,7 +109,7 @@ def scenario_ok(sc):
 
 
 def _one(args):
-    sc, idx, nruns, seed, do_mc = args
+    sc, idx, nruns, seed, do_mc, do_crash = args
     base = os.path.join(tlc.scratch_root(), "step.%d.%d" % (os.getpid(), idx))
     res = {"scenario": sc.name, "runs": 0, "accepted": 0, "stuck": [], "mc": None}
     try:
@@ -205,6 +205,12 @@ def _one(args):
                          + (["Termination"] if "Temporal properties were violated" in out else [])
                          + (["deadlock"] if "Deadlock reached" in out else []),
                          "ok": "No error has been found" in out, "wall": round(wall, 1)}
+        if do_crash and len(sc.threads) == 2:
+            out, wall = _tlc("MCImpl.tla", "MCImplCrash.cfg.tmpl", consts, sf, 2)
+            m = re.search(r"(\d+) states generated, (\d+) distinct states found", out)
+            res["crash_mc"] = {"distinct": int(m.group(2)) if m else 0,
+                               "violated": re.findall(r"Invariant (\S+) is violated", out),
+                               "ok": "No error has been found" in out, "wall": round(wall, 1)}
     finally:
         shutil.rmtree(base, ignore_errors=True)
     return res
@@ -237,8 +243,8 @@ def _random_run(ex, rnd, tids):
     return rec2
 
 
-def run(scenarios, nruns=6, seed=0, do_mc=True, procs=16):
+def run(scenarios, nruns=6, seed=0, do_mc=True, procs=16, do_crash=False):
     scs = [s for s in scenarios if scenario_ok(s)]
-    jobs = [(s, i, nruns, seed, do_mc) for i, s in enumerate(scs)]
+    jobs = [(s, i, nruns, seed, do_mc, do_crash) for i, s in enumerate(scs)]
     with multiprocessing.get_context("fork").Pool(min(procs, max(1, len(jobs)))) as pool:
         return pool.map(_one, jobs, chunksize=1)
